@@ -381,11 +381,15 @@ func (p *plugin) stop() error {
 
 // Name returns a string indentication for the plugin.
 func (p *plugin) name() string {
+	p.Lock()
+	defer p.Unlock()
 	return p.idx + "-" + p.base
 }
 
 func (p *plugin) qualifiedName() string {
 	var kind, idx, base string
+	p.Lock()
+	defer p.Unlock()
 	if p.isExternal() {
 		kind = "external"
 	} else {
@@ -411,8 +415,10 @@ func (p *plugin) RegisterPlugin(ctx context.Context, req *RegisterPluginRequest)
 			p.regC <- fmt.Errorf("plugin %q registered invalid index: %w", req.PluginName, err)
 			return &RegisterPluginResponse{}, fmt.Errorf("invalid plugin index: %w", err)
 		}
+		p.Lock()
 		p.base = req.PluginName
 		p.idx = req.PluginIdx
+		p.Unlock()
 	}
 
 	log.Infof(ctx, "plugin %q registered as %q", p.qualifiedName(), p.name())
